@@ -77,6 +77,18 @@ T = {
     "C18-4": ("a size literal with more fractional digits than its unit resolves, e.g. '1.0004kB'", ["C18"], "caught", "BYTES-1", "clause exact-before-test added because of this change"),
     "C20-3": ("serialize before any compute, compute something, then combine the deserialized array with a local one", ["C20", "C19", "C18"], "caught", "SPEC-EQ-1", "existing rule (C18); registered for C19/C20 with the whole-dict clause because of this change"),
     "C20-4": ("builder computed and resumed, pickled, exited; receiver computes with resume=True", ["C20", "C09", "C10"], "caught", "RESUME-PURE-1", "rule added because of this change (RESUME-ALL-1 reports it under C09)"),
+    # ------------------------------------------------------------------ round 3
+    "C03-5": ("an optimised plan with a streaming op fused with a predecessor and a fan-in above the default limits (split_every=16)", ["C03", "C15"], "caught", "NEST-LAZY-1", "existing rule"),
+    "C03-6": ("repeat(x, n, axis=None) on an N-d array whose chunks hold several partial rows", ["C03"], "caught", "MEM-STALE-1", "rule added because of this change"),
+    "C08-6": ("use_backups and a clock coarser than the task durations (a completed duration of exactly 0.0)", ["C08"], "caught", "SCHED-DIV-1", "rule added because of this change"),
+    "C13-5": ("an operation whose output has a zero-length dimension", ["C13"], "caught", "COUNT-1", "existing rule"),
+    "C13-6": ("threads/processes executor with batch_size smaller than the number of tasks", ["C13", "C08"], "caught", "MAP-SUBMIT-1", "existing rule (added after the mutation sweep)"),
+    "C15-5": ("fusion, a streaming predecessor, and the same predecessor block requested twice for one output block", ["C15", "C02"], "caught", "NEST-DISPATCH-1", "clause key-fresh-call added because of this change"),
+    "C15-6": ("a contraction or drop_axis together with an argument that lacks the contracted index and has a single-block dimension", ["C15"], "missed-by-design", None, "index arithmetic inside the vendored dask code"),
+    "C16-5": ("asarray(zarr_array, dtype=other) — a storage-backed array-like with an explicit differing dtype", ["C16"], "missed-by-design", None, "NumPy's conversion protocol (__array__) is not in the effect table"),
+    "C16-6": ("repeat(x, repeats) with repeats a 0-d integer cubed array", ["C16"], "caught", "LAZY-IMPLICIT-1", "clause index added because of this change"),
+    "C18-6": ("an equal-but-distinct Spec combined once, collected, and a different Spec allocated at the same address", ["C18", "C19", "C20"], "caught", "SPEC-CHECK-2", "existing rule"),
+    "C20-6": ("two builder processes importing cubed within the same second with one work_dir, resume=True", ["C20", "C10"], "caught", "CLEANUP-1", "existing clause context-id"),
 }
 
 
@@ -92,7 +104,7 @@ def main():
             continue
         needs, props, expect, by, note = T[sid]
         meta = json.load(open(mp))
-        meta.update({"needs_to_manifest": needs, "check_properties": props, "expect": expect, "caught_by": by, "note": note, "round": 1 if sid.endswith(("-1", "-2")) else 2})
+        meta.update({"needs_to_manifest": needs, "check_properties": props, "expect": expect, "caught_by": by, "note": note, "round": 1 if sid.endswith(("-1", "-2")) else 2 if sid.endswith(("-3", "-4")) else 3})
         json.dump(meta, open(mp, "w"), indent=1)
         n += 1
     print("updated", n, "of", len(T), "known ids")
